@@ -704,6 +704,14 @@ func (dht *IpfsDHT) peerFound(p peer.ID) {
 				return
 			}
 
+			// The probe took a round trip: the peer may have stopped advertising
+			// the DHT protocol in the meantime (the corresponding event found it
+			// outside the routing table, so it had nothing to evict). Check again
+			// before admitting it.
+			if b, err := dht.validRTPeer(p); err != nil || !b {
+				return
+			}
+
 			// if the FIND_NODE succeeded, the peer is considered as valid
 			dht.validPeerFound(p)
 		}()
